@@ -811,15 +811,69 @@ var justifiedREC = map[string]string{}
 // variable a type switch binds from L.At(i) -- where L is X.TypeArgs() of a value X derived from a parameter
 // (the parameter itself, or the variable a type switch binds from it).
 func (g *recGraph) typeArgDescent(scc []*recNode) bool {
-	if len(scc) != 1 || scc[0].lit != nil {
-		return false
+	// every call between the functions of the SCC either descends into a type argument of the *types.Named the
+	// caller received ("desc") or hands on what the caller received, unchanged ("same"); and every cycle contains a
+	// descending call (the SCC without the descending edges is acyclic). A helper extracted from a self-recursive
+	// function gives exactly this shape.
+	inSCC := map[*recNode]bool{}
+	for _, n := range scc {
+		if n.lit != nil {
+			return false
+		}
+		inSCC[n] = true
 	}
-	n := scc[0]
+	same := map[*recNode]map[*recNode]bool{}
+	for _, n := range scc {
+		for m, calls := range n.out {
+			if !inSCC[m] {
+				continue
+			}
+			for _, call := range calls {
+				switch g.typeArgEdge(n, call) {
+				case "desc":
+				case "same":
+					if same[n] == nil {
+						same[n] = map[*recNode]bool{}
+					}
+					same[n][m] = true
+				default:
+					return false
+				}
+			}
+		}
+	}
+	// the "same" edges alone must not form a cycle
+	state := map[*recNode]int{}
+	var visit func(n *recNode) bool
+	visit = func(n *recNode) bool {
+		switch state[n] {
+		case 1:
+			return false
+		case 2:
+			return true
+		}
+		state[n] = 1
+		for m := range same[n] {
+			if !visit(m) {
+				return false
+			}
+		}
+		state[n] = 2
+		return true
+	}
+	for _, n := range scc {
+		if !visit(n) {
+			return false
+		}
+	}
+	return true
+}
+
+// typeArgEdge classifies one call made by n to a function of its SCC: "desc" when an argument is an element
+// X.TypeArgs().At(i) of a value derived from n's parameters (or a variable bound by a type switch over such an
+// element), "same" when the type-valued arguments are n's own parameters (or their type-switch binders), "" otherwise.
+func (g *recGraph) typeArgEdge(n *recNode, call *ast.CallExpr) string {
 	info := n.fi.Pkg.TypesInfo
-	calls := n.out[n]
-	if len(calls) == 0 {
-		return false
-	}
 	// variables holding a TypeArgs() list of a parameter-derived value
 	paramDerived := func(e ast.Expr) bool {
 		id := rootIdent(e)
@@ -919,21 +973,31 @@ func (g *recGraph) typeArgDescent(scc []*recNode) bool {
 		}
 		return true
 	})
-	for _, call := range calls {
-		okc := false
-		for _, a := range call.Args {
-			if isElem(a) {
-				okc = true
-			}
-			if id := identOf(a); id != nil && elemVars[objOf(info, id)] {
-				okc = true
-			}
+	desc, other := false, false
+	for _, a := range call.Args {
+		t := info.TypeOf(a)
+		if t == nil {
+			continue
 		}
-		if !okc {
-			return false
+		isTypeVal := strings.HasPrefix(t.String(), "go/types.") || strings.HasPrefix(t.String(), "*go/types.")
+		switch {
+		case isElem(a):
+			desc = true
+		case identOf(a) != nil && elemVars[objOf(info, identOf(a))]:
+			desc = true
+		case isTypeVal && identOf(a) != nil && paramDerived(a):
+			// handed on unchanged
+		case isTypeVal:
+			other = true
 		}
 	}
-	return true
+	switch {
+	case other:
+		return ""
+	case desc:
+		return "desc"
+	}
+	return "same"
 }
 
 // cacheNotThreaded: the memo guard only cuts the recursion if the whole cycle works on ONE cache. Every call
